@@ -532,6 +532,45 @@ fn names_main(in_path: &str, out_path: &str) -> Result<(), String> {
     out.flush().map_err(|e| format!("write {out_path}: {e}"))
 }
 
+/// `ddv-gen integer-table`: the range of every address type as the real generator applies it, found by
+/// running it (a translator by execution, used when `Integer::{min,max}_value` cannot be read off the source):
+/// for each type the least and the greatest address of a lone register that is not rejected. A one-register
+/// device can only be rejected by the range check; a panic further down (the lowering at the ends of i64) is
+/// not a rejection. Prints one JSON object `{"U8": ["0", "255"], …}`.
+fn integer_table_main() -> Result<(), String> {
+    let mut out = Map::new();
+    for (variant, ty) in [("U8", "u8"), ("U16", "u16"), ("U32", "u32"), ("I8", "i8"), ("I16", "i16"), ("I32", "i32"), ("I64", "i64")] {
+        let rejected = |a: i128| -> bool {
+            let text = format!(
+                "{{\"config\":{{\"register_address_type\":\"{ty}\",\"default_byte_order\":\"LE\"}},\"R\":{{\"type\":\"register\",\"address\":{a},\"size_bits\":8}}}}"
+            );
+            match run_transform("json", &text, "Dev") {
+                Outcome::Tokens(ts) => compile_error_messages(&ts).is_some(),
+                _ => false,
+            }
+        };
+        if rejected(0) {
+            return Err(format!("integer-table: address 0 is rejected for {ty}"));
+        }
+        // greatest accepted address in [0, i64::MAX] and least accepted in [i64::MIN, 0] (acceptance is an interval)
+        let search = |mut good: i128, mut bad: i128| -> i128 {
+            if !rejected(bad) {
+                return bad;
+            }
+            while (bad - good).abs() > 1 {
+                let mid = good + (bad - good) / 2;
+                if rejected(mid) { bad = mid } else { good = mid }
+            }
+            good
+        };
+        let max = search(0, i64::MAX as i128);
+        let min = search(0, i64::MIN as i128);
+        out.insert(variant.to_string(), json!([min.to_string(), max.to_string()]));
+    }
+    println!("{}", Value::Object(out));
+    Ok(())
+}
+
 fn render_main(syntax: &str) -> Result<(), String> {
     let mut src = String::new();
     std::io::stdin().read_to_string(&mut src).map_err(|e| format!("read stdin: {e}"))?;
@@ -558,6 +597,10 @@ pub fn main_cli(args: &[String]) -> i32 {
         ["render", syntax] => {
             install_panic_capture();
             render_main(syntax)
+        }
+        ["integer-table"] => {
+            install_panic_capture();
+            integer_table_main()
         }
         _ => Err(USAGE.to_string()),
     };
